@@ -22,7 +22,7 @@ Your task: write ONE realistic change to the project's source (the kind of slip 
 commit) that BREAKS this property while the project still compiles and the existing test suite still passes. The change must
 need something specific in order to manifest -- a particular interleaving, a fault or crash at a particular point, a multi-step
 sequence of operations, an unusual input / configuration (e.g. a non-default evaluator, a second batch, a particular party
-count), or two cooperating sites that each look fine alone. Do NOT produce a change that ordinary use or the existing tests
+count), or two cooperating sites that each look fine alone. Never use `git stash` (the stash is shared between worktrees; use `git apply -R SEED/patch.diff` and `git apply SEED/patch.diff` to switch). Do NOT produce a change that ordinary use or the existing tests
 would expose at once. Keep it small (typically 1-15 changed lines), do not touch tests, and do not add cfg flags or features.
 {hint}
 
